@@ -561,7 +561,7 @@ theorem readmission_pipeline_idempotent (k : Ranges) (p p' : Pod)
   exact hid
 
 /-! ### 7. re-admission over an arbitrary profile list
-A profile without labelKeysMapping, labelSuffixes and patch ("simple") is an "overwrite the
+A profile without labelKeysMapping, labelSuffixes and resource patch ("simple"; a patch of labels / spec.priority is allowed) is an "overwrite the
 field with a constant or keep it" (`Net`); a fold of such profiles collapses to ONE overwrite
 (`summaryFrom`), which is idempotent and commutes with every update of the container / overhead /
 annotation fields.  Label suffixes and resource patches are genuinely not idempotent
@@ -570,23 +570,37 @@ annotation fields.  Label suffixes and resource patches are genuinely not idempo
 theorem ovr_idem {α} (o x : Option α) : ovr o (ovr o x) = ovr o x := by cases o <;> rfl
 theorem ovr_assoc {α} (a b x : Option α) : ovr b (ovr a x) = ovr (ovr b a) x := by cases a <;> cases b <;> rfl
 
-/-- no labelKeysMapping, no labelSuffixes, no patch. -/
-def Profile.simple (pr : Profile) : Bool := pr.keyMap.isEmpty && pr.suffixes.isEmpty && !pr.hasPatch
+/-- no labelKeysMapping, no labelSuffixes, no patch of container resources (a patch of labels /
+    spec.priority is allowed). -/
+def Profile.simple (pr : Profile) : Bool := pr.keyMap.isEmpty && pr.suffixes.isEmpty && pr.patchRes.isEmpty
 
-/-- the constants a simple profile writes. -/
+/-- the constants a simple profile writes; `norm` = it carries a patch (the pod goes through the JSON
+    round trip that drops an empty overhead map). -/
 structure Net where
   lab : LKey → Option LStr
   priority : Option Int
   subPrio : Option Int
+  norm : Bool
 
 def applyNet (p : Pod) (n : Net) : Pod :=
   { p with labels := fun k => ovr (n.lab k) (p.labels k), priority := ovr n.priority p.priority,
-           subPrio := ovr n.subPrio p.subPrio }
+           subPrio := ovr n.subPrio p.subPrio,
+           overhead := if n.norm then normOv p.overhead else p.overhead }
 
 def netOf (pr : Profile) : Net :=
-  { lab := setOpt (setLabels Labels.empty pr.labels) LKey.qos pr.qos,
-    priority := pr.priority,
-    subPrio := pr.subPrio }
+  { lab := setLabels (setOpt (setLabels Labels.empty pr.labels) LKey.qos pr.qos) (if pr.hasPatch then pr.patchLabels else []),
+    priority := ovr (if pr.hasPatch then pr.patchPriority else none) pr.priority,
+    subPrio := pr.subPrio,
+    norm := pr.hasPatch }
+
+theorem normOv_idem (o : Option RL) : normOv (normOv o) = normOv o := by
+  cases o with
+  | none => rfl
+  | some l =>
+    unfold normOv
+    by_cases h : rlEmpty l = true
+    · simp [h]
+    · simp [h]
 
 theorem setLabels_ovr (kvs : List (LKey × LStr)) (l : Labels) (k : LKey) :
     setLabels l kvs k = ovr (setLabels Labels.empty kvs k) (l k) := by
@@ -604,13 +618,13 @@ theorem setLabels_ovr (kvs : List (LKey × LStr)) (l : Labels) (k : LKey) :
 
 theorem applyProfile_simple (p : Pod) (pr : Profile) (h : pr.simple = true) :
     applyProfile p pr = applyNet p (netOf pr) := by
-  simp only [Profile.simple, Bool.and_eq_true, List.isEmpty_iff, Bool.not_eq_true'] at h
+  simp only [Profile.simple, Bool.and_eq_true, List.isEmpty_iff] at h
   obtain ⟨⟨h1, h2⟩, h3⟩ := h
-  have hl : ∀ k, setOpt (addSuffixes (mapKeys (setLabels p.labels pr.labels) pr.keyMap) pr.suffixes) LKey.qos pr.qos k =
-      ovr ((netOf pr).lab k) (p.labels k) := by
+  have hM : ∀ k, setOpt (addSuffixes (mapKeys (setLabels p.labels pr.labels) pr.keyMap) pr.suffixes) LKey.qos pr.qos k =
+      ovr (setOpt (setLabels Labels.empty pr.labels) LKey.qos pr.qos k) (p.labels k) := by
     intro k
     rw [h1, h2]
-    simp only [mapKeys, addSuffixes, List.foldl_nil, netOf]
+    simp only [mapKeys, addSuffixes, List.foldl_nil]
     cases pr.qos with
     | none => exact setLabels_ovr pr.labels p.labels k
     | some q =>
@@ -619,18 +633,34 @@ theorem applyProfile_simple (p : Pod) (pr : Profile) (h : pr.simple = true) :
       · simp only [Labels.set, hk, if_true]; rfl
       · simp only [Labels.set, hk, if_false]; exact setLabels_ovr pr.labels p.labels k
   unfold applyProfile applyNet
-  simp only [h3, Bool.false_eq_true, if_false]
-  rw [funext hl]
-  rfl
+  cases hp : pr.hasPatch with
+  | false =>
+    simp only [Bool.false_eq_true, if_false, netOf, hp]
+    have hl : setOpt (addSuffixes (mapKeys (setLabels p.labels pr.labels) pr.keyMap) pr.suffixes) LKey.qos pr.qos =
+        fun k => ovr (setLabels (setOpt (setLabels Labels.empty pr.labels) LKey.qos pr.qos) [] k) (p.labels k) := funext hM
+    rw [hl]
+    rfl
+  | true =>
+    simp only [if_true, netOf, hp, applyPatch, h3, patchCtrs, List.foldl_nil]
+    have hl : setLabels (setOpt (addSuffixes (mapKeys (setLabels p.labels pr.labels) pr.keyMap) pr.suffixes) LKey.qos pr.qos) pr.patchLabels =
+        fun k => ovr (setLabels (setOpt (setLabels Labels.empty pr.labels) LKey.qos pr.qos) pr.patchLabels k) (p.labels k) := by
+      funext k
+      rw [setLabels_ovr pr.patchLabels, setLabels_ovr pr.patchLabels (setOpt (setLabels Labels.empty pr.labels) LKey.qos pr.qos),
+        hM k, ovr_assoc]
+    rw [hl]
+    simp only [ovr_assoc]
 
 /-- two overwrites applied one after the other act like one. -/
 def mergeNet (a b : Net) : Net :=
-  { lab := fun k => ovr (b.lab k) (a.lab k), priority := ovr b.priority a.priority, subPrio := ovr b.subPrio a.subPrio }
+  { lab := fun k => ovr (b.lab k) (a.lab k), priority := ovr b.priority a.priority, subPrio := ovr b.subPrio a.subPrio,
+    norm := a.norm || b.norm }
 
-def idNet : Net := { lab := fun _ => none, priority := none, subPrio := none }
+def idNet : Net := { lab := fun _ => none, priority := none, subPrio := none, norm := false }
 
 theorem applyNet_merge (p : Pod) (a b : Net) : applyNet (applyNet p a) b = applyNet p (mergeNet a b) := by
-  simp only [applyNet, mergeNet, ovr_assoc]
+  obtain ⟨la, pa, sa, na⟩ := a
+  obtain ⟨lb, pb, sb, nb⟩ := b
+  cases na <;> cases nb <;> simp [applyNet, mergeNet, ovr_assoc, normOv_idem]
 
 theorem applyNet_id (p : Pod) : applyNet p idNet = p := by
   cases p; rfl
@@ -670,24 +700,87 @@ theorem applyProfiles_summary (rand : Int) (ps : List Profile) (hs : AppliedSimp
 def SameMeta (q r : Pod) : Prop :=
   q.labels = r.labels ∧ q.priority = r.priority ∧ q.subPrio = r.subPrio
 
-theorem applyNet_fixed (p q : Pod) (s : Net) (h : SameMeta q (applyNet p s)) : applyNet q s = q := by
+/-- the overhead is not an empty map (a fixed point of the JSON round trip). -/
+def OvNormal (q : Pod) : Prop := normOv q.overhead = q.overhead
+
+theorem applyNet_fixed (p q : Pod) (s : Net) (h : SameMeta q (applyNet p s)) (ho : s.norm = true → OvNormal q) :
+    applyNet q s = q := by
   obtain ⟨h1, h2, h3⟩ := h
   cases q with
   | mk l pv sp st is cs ov an pl =>
     simp only [applyNet] at h1 h2 h3 ⊢
     subst h1 h2 h3
     simp only [ovr_idem]
+    cases hn : s.norm with
+    | false => simp
+    | true =>
+      have := ho hn
+      simp only [OvNormal] at this
+      simp [this]
 
-/-- applying the profiles to a pod that already carries their class fields changes nothing
-    (idempotence + commutation with any update of containers / overhead / annotation). -/
+/-- applying the profiles to a pod that already carries their class fields (and, if one of them
+    patches, a normal overhead) changes nothing: idempotence + commutation with any update of
+    containers / overhead / annotation. -/
 theorem applyProfiles_fixed (rand : Int) (ps : List Profile) (hs : AppliedSimple rand ps) (p q : Pod)
-    (h : SameMeta q (applyProfiles rand ps p)) : applyProfiles rand ps q = q := by
+    (h : SameMeta q (applyProfiles rand ps p)) (ho : (summaryFrom rand ps idNet).norm = true → OvNormal q) :
+    applyProfiles rand ps q = q := by
   rw [applyProfiles_summary rand ps hs] at h ⊢
-  exact applyNet_fixed p q _ h
+  exact applyNet_fixed p q _ h ho
+
+theorem applyProfiles_ovNormal (rand : Int) (ps : List Profile) (hs : AppliedSimple rand ps) (p : Pod)
+    (hn : (summaryFrom rand ps idNet).norm = true) : OvNormal (applyProfiles rand ps p) := by
+  rw [applyProfiles_summary rand ps hs]
+  simp only [OvNormal, applyNet, hn, if_true, normOv_idem]
 
 theorem applyProfiles_idempotent (rand : Int) (ps : List Profile) (hs : AppliedSimple rand ps) (p : Pod) :
     applyProfiles rand ps (applyProfiles rand ps p) = applyProfiles rand ps p :=
-  applyProfiles_fixed rand ps hs p _ ⟨rfl, rfl, rfl⟩
+  applyProfiles_fixed rand ps hs p _ ⟨rfl, rfl, rfl⟩ (applyProfiles_ovNormal rand ps hs p)
+
+theorem rlEmpty_iff (l : RL) : rlEmpty l = true ↔ ∀ r, l r = none := by
+  unfold rlEmpty
+  rw [List.all_eq_true]
+  constructor
+  · intro h r
+    have := h r (by cases r <;> simp [Res.all])
+    simpa using this
+  · intro h r _
+    simp [h r]
+
+/-- translating a non-empty list leaves it non-empty. -/
+theorem replaceBoth_nonempty (pc : PC) (h : IsTier pc) (l : RL) (hl : rlEmpty l = false) : rlEmpty (replaceBoth pc l) = false := by
+  cases he : rlEmpty (replaceBoth pc l) with
+  | false => rfl
+  | true =>
+    exfalso
+    have hall := (rlEmpty_iff _).mp he
+    obtain ⟨t1, t2, _, _, _⟩ := translate_preserves_amounts pc h l
+    have c1 : l Res.cpu = none := by
+      cases hc : l Res.cpu with
+      | none => rfl
+      | some q => have := t1 q hc; rw [hall] at this; cases this
+    have c2 : l Res.memory = none := by
+      cases hc : l Res.memory with
+      | none => rfl
+      | some q => have := t2 q hc; rw [hall] at this; cases this
+    rw [replaceBoth_noop pc l c1 c2] at he
+    rw [he] at hl
+    cases hl
+
+theorem mutate_ovNormal (k : Ranges) (p : Pod) (h : OvNormal p) : OvNormal (mutatePodResourceSpec k p) := by
+  by_cases ht : IsTier (pcWithDefault k p)
+  · rw [mutate_tier_form k p ht]
+    unfold OvNormal at h ⊢
+    simp only []
+    cases ho : p.overhead with
+    | none => rfl
+    | some l =>
+      rw [ho] at h
+      have hl : rlEmpty l = false := by
+        cases he : rlEmpty l with
+        | false => rfl
+        | true => simp [normOv, he] at h
+      simp [normOv, replaceBoth_nonempty _ ht l hl]
+  · rw [pod_untouched_without_tier k p ht]; exact h
 
 theorem sameMeta_mutate (k : Ranges) (p : Pod) : SameMeta (mutatePodResourceSpec k p) p := by
   unfold mutatePodResourceSpec SameMeta
@@ -751,7 +844,7 @@ theorem mem_sortProfiles (x : Profile) (l : List Profile) : x ∈ sortProfiles l
 
 /-- 7. `idempotent`, full statement over arbitrary profile lists: for every list of colocation
     profiles whose matching, applied members are simple (no labelKeysMapping / labelSuffixes /
-    patch — the harness evaluates the same predicate and demands idempotence exactly
+    resource patch — the harness evaluates the same predicate and demands idempotence exactly
     there), every feature gate and random draw, admitting an admitted pod again (same profiles,
     same draw) returns it unchanged. -/
 theorem readmission_idempotent (k : Ranges) (gate : Bool) (rand : Int) (ps : List Profile) (p p' : Pod)
@@ -770,7 +863,7 @@ theorem readmission_idempotent (k : Ranges) (gate : Bool) (rand : Int) (ps : Lis
     · rw [if_pos hsk] at h ⊢
       obtain ⟨a, rfl⟩ := mutateByExt_form _ _ h
       have hfix : applyProfiles rand ms { applyProfiles rand ms p with annot := a } = { applyProfiles rand ms p with annot := a } :=
-        applyProfiles_fixed rand ms hms p _ ⟨rfl, rfl, rfl⟩
+        applyProfiles_fixed rand ms hms p _ ⟨rfl, rfl, rfl⟩ (applyProfiles_ovNormal rand ms hms p)
       rw [hfix]
       exact mutateByExt_idempotent _ _ h
     · rw [if_neg hsk] at h ⊢
@@ -779,7 +872,7 @@ theorem readmission_idempotent (k : Ranges) (gate : Bool) (rand : Int) (ps : Lis
       have hm := sameMeta_mutate k (applyProfiles rand ms p)
       have hfix : applyProfiles rand ms { mutatePodResourceSpec k (applyProfiles rand ms p) with annot := a } =
           { mutatePodResourceSpec k (applyProfiles rand ms p) with annot := a } :=
-        applyProfiles_fixed rand ms hms p _ hm
+        applyProfiles_fixed rand ms hms p _ hm (fun hn => mutate_ovNormal k _ (applyProfiles_ovNormal rand ms hms p hn))
       rw [hfix]
       exact readmission_pipeline_idempotent k _ _ h'
 
@@ -828,6 +921,18 @@ example : ∃ p', admitCreate stdRanges false 0 [exProfile] (exPod QoS.ls 9500) 
     p'.ctrs.map (fun c => c.req Res.batchCPU) = [some 1000000000] :=
   ⟨_, rfl, by decide⟩
 
+/-- a simple profile with a patch of labels and spec.priority. -/
+def exPatchLabelProfile : Profile :=
+  { name := 2, matched := true, skipRes := false, prob := some 50, qos := none, priority := none, subPrio := some 3,
+    hasPatch := true, patchLabels := [(LKey.pc, pcName PC.mid)], patchPriority := some 7100 }
+
+example : AppliedSimple 30 ([exProfile, exPatchLabelProfile].filter (·.matched)) := by decide
+
+example : ∃ p', admitCreate stdRanges false 30 [exPatchLabelProfile, exProfile] (exPod QoS.ls 9500) = some p' ∧
+    p'.labels LKey.pc = some (pcName PC.mid) ∧ p'.priority = some 7100 ∧ p'.subPrio = some 3 ∧
+    p'.ctrs.map (fun c => c.req Res.midCPU) = [some 1000000000] :=
+  ⟨_, rfl, by decide⟩
+
 /-- a profile that appends "x" to the QoS label (and skips the translation). -/
 def sfxProfile : Profile :=
   { name := 0, matched := true, skipRes := true, prob := none, qos := none, priority := none, subPrio := none,
@@ -858,5 +963,160 @@ theorem readmission_patch_counterexample :
   have h2 := congrArg (fun o => o.map (fun q => q.ctrs.map (fun c => c.req Res.batchCPU))) h
   revert h2
   decide
+
+/-! ### pod requests: the aggregate of component-helpers is the documented formula -/
+
+def RLNonNeg (l : RL) : Prop := ∀ r q, l r = some q → 0 ≤ q
+
+theorem addRL_get0 (a b : RL) (r : Res) : (addRL a b).get0 r = a.get0 r + b.get0 r := by
+  unfold addRL RL.get0
+  cases hbr : b r <;> simp only [hbr] <;> simp
+
+theorem addRL_nonneg (a b : RL) (ha : RLNonNeg a) (hb : RLNonNeg b) : RLNonNeg (addRL a b) := by
+  intro r q h
+  unfold addRL at h
+  cases hbr : b r with
+  | none => rw [hbr] at h; exact ha r q h
+  | some v =>
+    rw [hbr] at h
+    simp only [Option.some.injEq] at h
+    have h1 := hb r v hbr
+    cases har : a r with
+    | none => rw [har] at h; simp at h; omega
+    | some w => rw [har] at h; have := ha r w har; simp at h; omega
+
+theorem maxRL_get0 (a b : RL) (ha : RLNonNeg a) (hb : RLNonNeg b) (r : Res) :
+    (maxRL a b).get0 r = max (a.get0 r) (b.get0 r) := by
+  unfold maxRL RL.get0
+  cases hbr : b r with
+  | none =>
+    cases har : a r with
+    | none => simp only [hbr, har]; simp
+    | some w => have := ha r w har; simp only [hbr, har, Option.getD_some, Option.getD_none]; omega
+  | some v =>
+    have := hb r v hbr
+    cases har : a r with
+    | none => simp only [hbr, har, Option.getD_some, Option.getD_none]; omega
+    | some w =>
+      simp only [hbr, har, Option.getD_some]
+      split <;> simp only [Option.getD_some] <;> omega
+
+theorem maxRL_nonneg (a b : RL) (ha : RLNonNeg a) (hb : RLNonNeg b) : RLNonNeg (maxRL a b) := by
+  intro r q h
+  unfold maxRL at h
+  cases hbr : b r with
+  | none => rw [hbr] at h; exact ha r q h
+  | some v =>
+    rw [hbr] at h
+    cases har : a r with
+    | none => rw [har] at h; simp at h; subst h; exact hb r v hbr
+    | some w =>
+      rw [har] at h
+      simp only [] at h
+      split at h <;> simp at h <;> subst h
+      · exact hb r v hbr
+      · exact ha r w har
+
+theorem empty_nonneg : RLNonNeg RL.empty := by intro r q h; cases h
+
+theorem ctrFold_get0 (cs : List Ctr) (acc : RL) (r : Res) :
+    (cs.foldl (fun acc c => addRL acc c.req) acc).get0 r = acc.get0 r + sumReq cs r := by
+  induction cs generalizing acc with
+  | nil => simp [sumReq]
+  | cons c rest ih =>
+    rw [List.foldl_cons, ih, addRL_get0]
+    simp only [sumReq, List.map_cons, List.sum_cons]
+    omega
+
+theorem ctrFold_nonneg (cs : List Ctr) (acc : RL) (ha : RLNonNeg acc) (h : ∀ c ∈ cs, RLNonNeg c.req) :
+    RLNonNeg (cs.foldl (fun acc c => addRL acc c.req) acc) := by
+  induction cs generalizing acc with
+  | nil => exact ha
+  | cons c rest ih =>
+    rw [List.foldl_cons]
+    exact ih _ (addRL_nonneg _ _ ha (h c (List.mem_cons_self ..))) (fun d hd => h d (List.mem_cons_of_mem _ hd))
+
+theorem initFold_plain (cs : List Ctr) (reqs ir : RL) (hs : ∀ c ∈ cs, c.sidecar = false) (hn : ∀ c ∈ cs, RLNonNeg c.req)
+    (hir : RLNonNeg ir) :
+    ∃ ir', cs.foldl initStep (reqs, RL.empty, ir) = (reqs, RL.empty, ir') ∧ RLNonNeg ir' ∧
+      ∀ r, ir'.get0 r = cs.foldl (fun m c => max m (c.req.get0 r)) (ir.get0 r) := by
+  induction cs generalizing ir with
+  | nil => exact ⟨ir, rfl, hir, fun _ => rfl⟩
+  | cons c rest ih =>
+    have hc : c.sidecar = false := hs c (List.mem_cons_self ..)
+    have hcn : RLNonNeg c.req := hn c (List.mem_cons_self ..)
+    have hstep : initStep (reqs, RL.empty, ir) c = (reqs, RL.empty, maxRL ir (addRL (addRL RL.empty c.req) RL.empty)) := by
+      simp [initStep, hc]
+    have hnn : RLNonNeg (addRL (addRL RL.empty c.req) RL.empty) :=
+      addRL_nonneg _ _ (addRL_nonneg _ _ empty_nonneg hcn) empty_nonneg
+    obtain ⟨ir', h1, h2, h3⟩ := ih (maxRL ir (addRL (addRL RL.empty c.req) RL.empty))
+      (fun d hd => hs d (List.mem_cons_of_mem _ hd)) (fun d hd => hn d (List.mem_cons_of_mem _ hd))
+      (maxRL_nonneg _ _ hir hnn)
+    refine ⟨ir', ?_, h2, ?_⟩
+    · rw [List.foldl_cons, hstep, h1]
+    · intro r
+      rw [h3 r, List.foldl_cons, maxRL_get0 _ _ hir hnn, addRL_get0, addRL_get0]
+      simp [RL.get0, RL.empty]
+
+/-- PodRequests is the documented formula max(Σ containers, max init containers) + overhead when
+    there is no sidecar, no pod-level resources and no negative container request. -/
+theorem podRequest_plain (p : Pod) (hs : ∀ c ∈ p.inits, c.sidecar = false) (hl : p.podRes = none)
+    (hn : ∀ c ∈ p.ctrs ++ p.inits, RLNonNeg c.req) (r : Res) :
+    podRequest p r = podRequestPlain p r := by
+  have hcn : ∀ c ∈ p.ctrs, RLNonNeg c.req := fun c hc => hn c (List.mem_append_left _ hc)
+  have hin : ∀ c ∈ p.inits, RLNonNeg c.req := fun c hc => hn c (List.mem_append_right _ hc)
+  have hreq := ctrFold_nonneg p.ctrs RL.empty empty_nonneg hcn
+  obtain ⟨ir', h1, h2, h3⟩ := initFold_plain p.inits (p.ctrs.foldl (fun acc c => addRL acc c.req) RL.empty) RL.empty hs hin empty_nonneg
+  have hagg : ∀ r, (aggregateRequests p).get0 r = max (sumReq p.ctrs r) (maxReq p.inits r) := by
+    intro r
+    unfold aggregateRequests
+    simp only [h1]
+    rw [maxRL_get0 _ _ hreq h2, ctrFold_get0, h3 r]
+    simp [RL.get0, RL.empty, maxReq]
+  unfold podRequest podRequestPlain podRequests
+  simp only [hl]
+  cases p.overhead with
+  | none => simp only []; rw [hagg]; omega
+  | some o => simp only []; rw [addRL_get0, hagg]
+
+/-- a sidecar or a pod-level request makes the aggregate differ from the plain formula. -/
+example : podRequest { (exPod QoS.lsr 9500) with podRes := some (RL.empty.set Res.cpu 3000000000, RL.empty) } Res.cpu = 3000000000 ∧
+          podRequestPlain { (exPod QoS.lsr 9500) with podRes := some (RL.empty.set Res.cpu 3000000000, RL.empty) } Res.cpu = 500000 := by
+  decide
+
+example : podRequest { (exPod QoS.lsr 9500) with inits := [{ name := 10, req := RL.empty.set Res.cpu 2000000000, lim := RL.empty, sidecar := true }] } Res.cpu = 2000500000 := by
+  decide
+
+/-! ### pod level: what the translation touches -/
+
+/-- the translation keeps the container lists' shape (names, order, count) and the class fields,
+    status and pod-level resources. -/
+theorem mutate_keeps_shape (k : Ranges) (p : Pod) :
+    (mutatePodResourceSpec k p).ctrs.map (·.name) = p.ctrs.map (·.name) ∧
+    (mutatePodResourceSpec k p).inits.map (·.name) = p.inits.map (·.name) ∧
+    (mutatePodResourceSpec k p).labels = p.labels ∧ (mutatePodResourceSpec k p).priority = p.priority ∧
+    (mutatePodResourceSpec k p).subPrio = p.subPrio ∧ (mutatePodResourceSpec k p).podRes = p.podRes ∧
+    (mutatePodResourceSpec k p).annot = p.annot := by
+  by_cases h : IsTier (pcWithDefault k p)
+  · rw [mutate_tier_form k p h]
+    have hn : ∀ cs : List Ctr, (cs.map (mutateCtr (pcWithDefault k p))).map (·.name) = cs.map (·.name) := by
+      intro cs
+      rw [List.map_map]
+      apply List.map_congr_left
+      intro c _
+      exact (mutateCtr_spec _ h c).1
+    exact ⟨hn _, hn _, rfl, rfl, rfl, rfl, rfl⟩
+  · rw [pod_untouched_without_tier k p h]
+    exact ⟨rfl, rfl, rfl, rfl, rfl, rfl, rfl⟩
+
+/-- 3 (pod level). every container and init container of a translated mid/batch pod is the translation
+    of the container at the same position (so `container_amounts_kept` applies to each), and the
+    overhead is translated list-wise. -/
+theorem pod_amounts_kept (k : Ranges) (p : Pod) (h : IsTier (pcWithDefault k p)) :
+    (mutatePodResourceSpec k p).ctrs = p.ctrs.map (mutateCtr (pcWithDefault k p)) ∧
+    (mutatePodResourceSpec k p).inits = p.inits.map (mutateCtr (pcWithDefault k p)) ∧
+    (mutatePodResourceSpec k p).overhead = p.overhead.map (replaceBoth (pcWithDefault k p)) := by
+  rw [mutate_tier_form k p h]
+  exact ⟨rfl, rfl, rfl⟩
 
 end KoordVerif.C13
